@@ -2,6 +2,7 @@ package gosym
 
 import (
 	"fmt"
+	"regexp"
 	"go/types"
 	"os"
 	"path/filepath"
@@ -18,6 +19,8 @@ type LoadConfig struct {
 	PkgDir     string            // "" (root package), "worker", "network"
 	Overlay    map[string]string // virtual file name (relative to the package dir) -> real file to read
 	OverlaySrc map[string][]byte // virtual file name -> content (takes precedence)
+	Instrument bool              // rewrite repo + harness sources with scheduling points (see instr.go)
+	VfDecls    []byte            // vf_engine.go template (package PKG), added to dependency packages when instrumenting
 }
 
 // Load type-checks the target package of /repo's current working tree with the harness overlay and builds SSA.
@@ -33,6 +36,49 @@ func Load(cfg LoadConfig) (*Program, error) {
 	}
 	for name, b := range cfg.OverlaySrc {
 		overlay[filepath.Join(dir, name)] = b
+	}
+	points := map[int]string{}
+	if cfg.Instrument {
+		n := 0
+		// harness files (not the vf vocabulary itself)
+		for path, b := range overlay {
+			if strings.Contains(filepath.Base(path), "zz_vf_") {
+				continue
+			}
+			nb, err := Instrument(path, b, &n, points)
+			if err != nil {
+				return nil, err
+			}
+			overlay[path] = nb
+		}
+		dirs := []string{dir}
+		if cfg.PkgDir != "" {
+			dirs = append(dirs, cfg.RepoDir) // worker/ and network/ import the root package
+		}
+		for _, d := range dirs {
+			files, _ := filepath.Glob(filepath.Join(d, "*.go"))
+			for _, f := range files {
+				if strings.HasSuffix(f, "_test.go") {
+					continue
+				}
+				b, err := os.ReadFile(f)
+				if err != nil {
+					return nil, err
+				}
+				nb, err := Instrument(f, b, &n, points)
+				if err != nil {
+					return nil, err
+				}
+				overlay[f] = nb
+			}
+			if d != dir && cfg.VfDecls != nil {
+				pn, err := dirPackageName(d)
+				if err != nil {
+					return nil, err
+				}
+				overlay[filepath.Join(d, "zz_vf_engine.go")] = []byte(strings.Replace(string(cfg.VfDecls), "package PKG", "package "+pn, 1))
+			}
+		}
 	}
 	pc := &packages.Config{
 		Mode: packages.NeedName | packages.NeedFiles | packages.NeedCompiledGoFiles | packages.NeedImports |
@@ -56,7 +102,7 @@ func Load(cfg LoadConfig) (*Program, error) {
 	}
 	prog, pkgs := ssautil.AllPackages(initial, ssa.InstantiateGenerics|ssa.BareInits)
 	prog.Build()
-	p := &Program{Prog: prog, Fset: initial[0].Fset, Pkgs: map[string]*ssa.Package{}, Main: pkgs[0]}
+	p := &Program{Prog: prog, Fset: initial[0].Fset, Pkgs: map[string]*ssa.Package{}, Main: pkgs[0], Instrumented: cfg.Instrument, Points: points, repoPkgs: map[*ssa.Package]bool{}}
 	for _, sp := range prog.AllPackages() {
 		p.Pkgs[sp.Pkg.Path()] = sp
 	}
@@ -81,6 +127,7 @@ func Load(cfg LoadConfig) (*Program, error) {
 			}
 		}
 		inits = append(inits, sp)
+		p.repoPkgs[sp] = true
 	}
 	visit(p.Main)
 	p.InitPkgs = inits
@@ -97,7 +144,26 @@ func Load(cfg LoadConfig) (*Program, error) {
 	return p, nil
 }
 
-func (p *Program) isHarnessPkg(sp *ssa.Package) bool { return sp == p.Main }
+func (p *Program) isHarnessPkg(sp *ssa.Package) bool { return sp == p.Main || p.repoPkgs[sp] }
+
+var pkgClauseRe = regexp.MustCompile(`(?m)^package\s+(\w+)`)
+
+func dirPackageName(dir string) (string, error) {
+	files, _ := filepath.Glob(filepath.Join(dir, "*.go"))
+	for _, f := range files {
+		if strings.HasSuffix(f, "_test.go") {
+			continue
+		}
+		b, err := os.ReadFile(f)
+		if err != nil {
+			continue
+		}
+		if m := pkgClauseRe.FindSubmatch(b); m != nil {
+			return string(m[1]), nil
+		}
+	}
+	return "", fmt.Errorf("no package clause in %s", dir)
+}
 
 // Harnesses lists the entry points `vh_<prefix>…` of the main package, sorted.
 func (p *Program) Harnesses(prefix string) []*ssa.Function {
